@@ -20,14 +20,19 @@ of the instructions outside the comb fragment, which never read `field_name` / `
 namespace C17
 open Impl.Comb Spec.Comb
 
-/-- the source under test has the annotation-blind helpers, and the other mirrored bodies are the recognised ones -/
+/-- the source under test has the annotation-blind helpers, GET n / UPDATE n test the index before asserting a pair
+(the shape after fixes 794044f / 18f9cf1), and the other mirrored bodies are the recognised ones -/
 theorem source_is_annotation_blind :
     Generated.C17.iterCombAnnotTest = some false ∧ Generated.C17.unpairnCombAnnotTest = some false
+      ∧ Generated.C17.getnZeroIdentity = some true ∧ Generated.C17.updatenZeroReplaces = some true
       ∧ Generated.C17.helpersRecognised = true := by decide
 
-/-- hence the mirror is instantiated with both flags off -/
+/-- hence the mirror is instantiated with both annotation flags off … -/
 theorem hI : chkIter = false := by decide
 theorem hU : chkUnpairn = false := by decide
+/-- … and with the index-first shape of GET n / UPDATE n -/
+theorem hG : zeroGet = true := by decide
+theorem hZ : zeroUpd = true := by decide
 
 /-! ### `iter_comb` -/
 
@@ -60,8 +65,9 @@ theorem accessComb_annot_free (v v' : CVal) (n : Nat) (h : strip v = strip v') :
 
 /-! ### UPDATE n -/
 
-/-- wherever `UPDATE n` of the reference is defined, `update_comb` returns the same value
-(`UPDATE 0` with a non-pair element is rejected by pytezos whatever the annotations — outside this property) -/
+/-- wherever `UPDATE n` of the reference is defined, the helper `update_comb` returns the same value.  The side condition
+concerns the helper alone: `update_comb(0, e)` rebuilds `e` with `from_comb`, which needs two leaves; the instruction
+UPDATE n does not call the helper for n = 0 (see `step_update0`, `step_refines_spec`, which carry no such condition) -/
 theorem updateComb_eq_updaten (v e : CVal) (n : Nat) (r : SVal) (hv : v.isPair = true)
     (h0 : n = 0 → e.isPair = true) (h : updaten n (strip e) (strip v) = some r) :
     (updateComb chkIter v n e).map strip = some r := by
@@ -95,68 +101,75 @@ theorem pairn_eq_spec (xs : List CVal) : (fromComb xs).map strip = pairn (xs.map
 
 /-! ### the instructions on a stack -/
 
-/-- where pytezos is stricter than Michelson whatever the annotations: `GET 0` / `UPDATE 0` want pairs (C01's business) -/
-def inPytezosDomain : CombInstr → List CVal → Prop
-  | .getN 0, v :: _ => v.isPair = true
-  | .updateN 0, e :: v :: _ => e.isPair = true ∧ v.isPair = true
-  | _, _ => True
-
 def toInstr : CombInstr → Instr
   | .getN n => .getN n
   | .updateN n => .updateN n
   | .pairN n => .pairN n
   | .unpairN n => .unpairN n
 
+/-- `GET 0` is the identity on a stack whose top has ANY type: same value, same annotations -/
+theorem step_get0 (v : CVal) (st : List CVal) :
+    Impl.Comb.step chkIter chkUnpairn zeroGet zeroUpd (.getN 0) (v :: st) = some (v :: st) := by
+  rw [hG]; exact step_getN_zero _ _ _ v st
+
+/-- `UPDATE 0` replaces the second item by the top one whatever the two types are; the element keeps its own annotations -/
+theorem step_update0 (e v : CVal) (st : List CVal) :
+    Impl.Comb.step chkIter chkUnpairn zeroGet zeroUpd (.updateN 0) (e :: v :: st) = some (e :: st) := by
+  rw [hZ]; exact step_updateN_zero _ _ _ e v st
+
+/-- GET n as executed on a stack IS the reference `GET n`: every n, every value (pair or not), same result and same failures -/
+theorem step_getN_eq_spec (n : Nat) (st : List CVal) :
+    (Impl.Comb.step chkIter chkUnpairn zeroGet zeroUpd (.getN n) st).map (List.map strip)
+      = Spec.Comb.step (.getN n) (st.map strip) := by
+  rw [hI, hU, hG]
+  cases st with
+  | nil => rfl
+  | cons v st => simp only [List.map_cons, Spec.Comb.step]; exact step_getN_eq _ n v st
+
 /-- GET n / UPDATE n / PAIR n / UNPAIR n as executed on a stack (mirror of adt.py) refine the reference semantics:
-whenever Michelson defines the result, pytezos computes that result (modulo annotations) -/
-theorem step_refines_spec (i : CombInstr) (st : List CVal) (r : List SVal) (hd : inPytezosDomain i st)
+whenever Michelson defines the result, pytezos computes that result (modulo annotations).  ALL instructions, ALL stacks, no
+domain hypothesis: the former guard (`GET 0` / `UPDATE 0` wanted pairs) is gone with fixes 794044f / 18f9cf1.
+(`UPDATE n`, n ≥ 1, with a non-pair new element needs no care: `update_comb` appends a non-pair element as one leaf.) -/
+theorem step_refines_spec (i : CombInstr) (st : List CVal) (r : List SVal)
     (h : Spec.Comb.step i (st.map strip) = some r) :
-    (Impl.Comb.step chkIter chkUnpairn (toInstr i) st).map (List.map strip) = some r := by
-  rw [hI, hU]
+    (Impl.Comb.step chkIter chkUnpairn zeroGet zeroUpd (toInstr i) st).map (List.map strip) = some r := by
+  rw [hI, hU, hG, hZ]
   cases i with
   | getN n =>
     match st, h with
     | v :: st, h =>
       simp only [List.map_cons, Spec.Comb.step, Option.map_eq_some_iff] at h
       obtain ⟨x, hx, rfl⟩ := h
-      have hv : v.isPair = true := by
-        cases n with
-        | zero => exact hd
-        | succ m => exact isPair_of_not (fun hp => by rw [getn_succ_not_pair hp] at hx; cases hx)
-      exact step_getN_spec n v st x hv hx
+      exact step_getN_spec _ n v st x hx
   | updateN n =>
     match st, h with
     | e :: v :: st, h =>
       simp only [List.map_cons, Spec.Comb.step, Option.map_eq_some_iff] at h
       obtain ⟨x, hx, rfl⟩ := h
-      have hv : v.isPair = true := by
-        cases n with
-        | zero => exact hd.2
-        | succ m => exact isPair_of_not (fun hp => by rw [updaten_succ_not_pair hp] at hx; cases hx)
-      have h0 : n = 0 → e.isPair = true := fun hn => by subst hn; exact hd.1
-      exact step_updateN_spec n e v st x hv h0 hx
+      exact step_updateN_spec _ n e v st x hx
   | pairN n =>
     simp only [Spec.Comb.step, List.length_map] at h
     split at h
     · rename_i hn
       simp only [Option.map_eq_some_iff] at h
       obtain ⟨x, hx, rfl⟩ := h
-      exact step_pairN_spec n st x hn hx
+      exact step_pairN_spec _ _ n st x hn hx
     · cases h
   | unpairN n =>
     match st, h with
     | v :: st, h =>
       simp only [List.map_cons, Spec.Comb.step, Option.map_eq_some_iff] at h
       obtain ⟨rs, hx, rfl⟩ := h
-      exact step_unpairN_spec n v st rs hx
+      exact step_unpairN_spec _ _ n v st rs hx
 
 /-- any program over GET n / UPDATE n / PAIR n / UNPAIR n / PAIR / UNPAIR / CAR / CDR / SWAP / DUP / DROP / DIG / DUG:
 final stack and failure depend only on the annotation-free initial stack (every program, every stack, every re-annotation,
 well-typed or not) -/
 theorem exec_annot_free (prog : List Instr) (st st' : List CVal) (h : st.map strip = st'.map strip) :
-    (exec chkIter chkUnpairn prog st).map (List.map strip) = (exec chkIter chkUnpairn prog st').map (List.map strip) := by
+    (exec chkIter chkUnpairn zeroGet zeroUpd prog st).map (List.map strip)
+      = (exec chkIter chkUnpairn zeroGet zeroUpd prog st').map (List.map strip) := by
   rw [hI, hU]
-  exact blind_of_erase (exec false false prog) (List.map erase) (exec_erase prog) (erase_list_congr h)
+  exact blind_of_erase (exec false false zeroGet zeroUpd prog) (List.map erase) (exec_erase _ _ prog) (erase_list_congr h)
 
 /-! ### PACK -/
 
@@ -197,5 +210,16 @@ example : (unpairnComb true 1 ex3).length = 2 := by decide
 example : (toMich true ex4).map (fun m => match m with | .seq _ => true | _ => false) = some false := by
   simp [ex4, n, toMich, combMich, descend, Annot.named, truthy, combArgs, Impl.Comb.mkPair]
 example : Spec.Comb.step (.getN 3) [strip ex3] = some [.atom (.int 2)] := rfl
+-- `step_refines_spec` is not vacuous at n = 0 on non-pairs: the reference is defined there, on annotated atoms too
+example : Spec.Comb.step (.getN 0) [strip (nA "a" 5)] = some [.atom (.int 5)] := rfl
+example : Spec.Comb.step (.updateN 0) [strip (nA "a" 7), strip (n 6)] = some [.atom (.int 7)] := rfl
+example : Spec.Comb.step (.updateN 0) [strip (n 7), strip ex3] = some [.atom (.int 7)] := rfl
+example : Spec.Comb.step (.updateN 2) [strip (n 7), strip ex3] = some [.pair (.atom (.int 1)) (.atom (.int 7))] := rfl
+-- the shape before fixes 794044f / 18f9cf1 (pair assertion first, helper called for every n) really is different:
+-- `PUSH int 5 ; GET 0`, `PUSH int 6 ; PUSH int 7 ; UPDATE 0` and `PUSH (pair …) … ; PUSH int 7 ; UPDATE 0` all failed
+example : (Impl.Comb.step false false false true (.getN 0) [n 5]).isNone = true := rfl
+example : (Impl.Comb.step false false true false (.updateN 0) [n 7, n 6]).isNone = true := rfl
+example : (Impl.Comb.step false false true false (.updateN 0) [n 7, ex3]).isNone = true := rfl
+example : (Impl.Comb.step false false true true (.updateN 0) [n 7, ex3]).isSome = true := rfl
 
 end C17
